@@ -6,7 +6,7 @@ tag = sys.argv[2] if len(sys.argv) > 2 else pid + 'b'
 base = subprocess.run([sys.executable, '/verif/tools/agent_prompt.py', pid], capture_output=True, text=True).stdout
 base = base.replace('/tmp/wt/%s' % pid, '/tmp/wt/%s' % tag).replace('/tmp/wt/out/%s' % pid, '/tmp/wt/out/%s' % tag)
 tried = []
-for m in sorted(glob.glob('/verif/seeded/_unverified/%s/mut*_meta.json' % pid)):
+for m in sorted(glob.glob('/verif/seeded/_unverified/%s/mut*_meta.json' % pid) + glob.glob('/verif/seeded/_unverified/%s?/mut*_meta.json' % pid)):
     j = json.load(open(m))
     tried.append('  - ' + (j.get('summary') or '')[:300].replace('\n', ' '))
 extra = ("\n\nIMPORTANT — ideas that have ALREADY been tried for this property (do NOT repeat them or close variants; attack OTHER mechanisms, other files among the anchored ones, "
